@@ -32,9 +32,15 @@ def _expr(e, env):
     if isinstance(e, ast.UnaryOp) and isinstance(e.op, ast.Not):
         return f"(!{_expr(e.operand, env)})"
     if isinstance(e, ast.Name):
-        if e.id in env and not e.id.startswith("__"):
+        if e.id in env and not e.id.startswith("__") and isinstance(env[e.id], str):
             return env[e.id]
         raise Untranslatable(f"name {e.id}")
+    if isinstance(e, ast.Subscript) and isinstance(e.slice, ast.Constant) and isinstance(e.slice.value, int) \
+            and _tuple_of(e.value, env) is not None:
+        t = _tuple_of(e.value, env)
+        if -len(t) <= e.slice.value < len(t):
+            return t[e.slice.value]
+        raise Untranslatable("tuple index out of range")
     if isinstance(e, ast.BoolOp):
         op = " && " if isinstance(e.op, ast.And) else " || "
         return "(" + op.join(_expr(v, env) for v in e.values) + ")"
@@ -53,12 +59,12 @@ def _expr(e, env):
         for prm, arg in zip(params, e.args):
             sub[prm] = _expr(arg, env)
         return _block(fn.body, sub)
-    if isinstance(e, ast.Compare) and len(e.ops) == 1 and isinstance(e.left, ast.Tuple) \
-            and isinstance(e.comparators[0], ast.Tuple) and len(e.left.elts) == len(e.comparators[0].elts) \
-            and len(e.left.elts) > 0:
+    if isinstance(e, ast.Compare) and len(e.ops) == 1 and _tuple_of(e.left, env) is not None \
+            and _tuple_of(e.comparators[0], env) is not None \
+            and len(_tuple_of(e.left, env)) == len(_tuple_of(e.comparators[0], env)) > 0:
         # lexicographic comparison of equal-length tuples of ints
-        ls = [_expr(x, env) for x in e.left.elts]
-        rs = [_expr(x, env) for x in e.comparators[0].elts]
+        ls = _tuple_of(e.left, env)
+        rs = _tuple_of(e.comparators[0], env)
         op = type(e.ops[0])
 
         def lex(i, strict, orequal):
@@ -106,6 +112,15 @@ def _expr(e, env):
     raise Untranslatable(ast.dump(e)[:100])
 
 
+def _tuple_of(e, env):
+    """components (Lean terms) of a tuple-valued expression, or None"""
+    if isinstance(e, ast.Tuple):
+        return [_expr(x, env) for x in e.elts]
+    if isinstance(e, ast.Name) and isinstance(env.get(e.id), list):
+        return list(env[e.id])
+    return None
+
+
 def _is_effect_free(stmt):
     """logging calls, docstrings and `pass`"""
     if isinstance(stmt, ast.Pass):
@@ -123,6 +138,13 @@ def _is_effect_free(stmt):
     return False
 
 
+def _all_effect_free(node):
+    """an `if` whose every branch only logs"""
+    if isinstance(node, ast.If):
+        return all(_all_effect_free(x) for x in node.body) and all(_all_effect_free(x) for x in node.orelse)
+    return _is_effect_free(node)
+
+
 def _block(stmts, env):
     """if/elif/else chain whose leaves are `return <bool expr>` -> Lean if-then-else."""
     stmts = [s for s in stmts if not _is_effect_free(s)]
@@ -138,9 +160,18 @@ def _block(stmts, env):
         tgt = s.targets[0] if isinstance(s, ast.Assign) and len(s.targets) == 1 else getattr(s, "target", None)
         if isinstance(tgt, ast.Name) and s.value is not None:
             sub = dict(env)
-            sub[tgt.id] = _expr(s.value, env)
+            tv = _tuple_of(s.value, env)
+            sub[tgt.id] = tv if tv is not None else _expr(s.value, env)
+            return _block(rest, sub)
+        if isinstance(tgt, ast.Tuple) and s.value is not None and _tuple_of(s.value, env) is not None \
+                and len(_tuple_of(s.value, env)) == len(tgt.elts) and all(isinstance(t, ast.Name) for t in tgt.elts):
+            sub = dict(env)
+            for t, v in zip(tgt.elts, _tuple_of(s.value, env)):
+                sub[t.id] = v
             return _block(rest, sub)
         raise Untranslatable("assignment form")
+    if isinstance(s, ast.If) and rest and _all_effect_free(s):
+        return _block(rest, env)
     if isinstance(s, ast.If):
         then = _block(s.body, env)
         if not (s.orelse or rest):
@@ -296,10 +327,18 @@ def gen_versions(src: Path):
                     and isinstance(v.args[0], ast.Subscript) and isinstance(v.args[0].slice, ast.Constant)
                     and v.args[0].slice.value == k)
 
+        tuple_name = None
         for i, st in enumerate(body):
             if not isinstance(st, ast.Assign) or len(st.targets) != 1:
                 continue
             tgt, val = st.targets[0], st.value
+            # released = (int(parts[0]), int(parts[1]), int(parts[2]))
+            if isinstance(tgt, ast.Name) and isinstance(val, ast.Tuple) and len(val.elts) == 3 and not names \
+                    and all(is_int_of_part(v, k) for k, v in enumerate(val.elts)):
+                tuple_name = tgt.id
+                names = ["__y", "__m", "__d"]
+                last = i
+                break
             # year = int(parts[0]) ... in order
             if isinstance(tgt, ast.Name) and is_int_of_part(val, len(names)):
                 names.append(tgt.id)
@@ -324,8 +363,22 @@ def gen_versions(src: Path):
         if len(names) != 3:
             raise Untranslatable("expected the three int() conversions of the version parts")
         env = dict(zip(names, ["year", "month", "day"]))
+        if tuple_name is not None:
+            env = {tuple_name: ["year", "month", "day"]}
         env["__funcs__"] = {n.name: n for n in bt.body if isinstance(n, ast.FunctionDef)}
-        chain = _block(body[last + 1:], env)
+        # module-level integer and integer-tuple constants
+        for n in bt.body:
+            if isinstance(n, ast.Assign) and len(n.targets) == 1 and isinstance(n.targets[0], ast.Name):
+                try:
+                    v = ast.literal_eval(n.value)
+                except Exception:
+                    continue
+                if isinstance(v, int) and not isinstance(v, bool):
+                    env.setdefault(n.targets[0].id, f"({v} : Int)")
+                elif isinstance(v, tuple) and v and all(isinstance(x, int) and not isinstance(x, bool) for x in v):
+                    env.setdefault(n.targets[0].id, [f"({x} : Int)" for x in v])
+        after_try = f.body[f.body.index(tr) + 1:]
+        chain = _block(list(body[last + 1:]) + list(after_try), env)
     except Untranslatable as ex:
         report["untranslatable"].append(f"batching.py: supports_batching: {ex}")
 
